@@ -171,6 +171,14 @@ Section Interleave.
   Definition sequential (ls : list (list A)) : list nat := sequential_from 0 ls.
 End Interleave.
 
+(* the same with generation that READS process-global state written by whoever ran before (here: the number of turns taken so
+   far by anybody - think of sys.modules / a cache filled by other workers): the hypothesis of the workers theorem fails *)
+Fixpoint run_shared (gen : N -> N -> N) (sched : list nat) (clock : N) : list (nat * N) :=
+  match sched with
+  | [] => []
+  | i :: sched' => (i, gen (N.of_nat i) clock) :: run_shared gen sched' (N.succ clock)
+  end.
+
 (* checked against real multi-worker runs: does the observed tagged traffic equal the interleaving of the
    one-worker per-operation lists under the observed schedule *)
 Definition observed_is_interleaving (per_op : list (list N)) (observed : list (nat * N)) : bool :=
